@@ -158,6 +158,23 @@ func hBadFrames() []hFrame {
 			return lorawan.PHYPayload{MHDR: lorawan.MHDR{MType: lorawan.RejoinRequest, Major: lorawan.LoRaWANR1},
 				MACPayload: &lorawan.RejoinRequestType02Payload{RejoinType: lorawan.RejoinRequestType1, DevEUI: hDevEUI}}
 		}},
+		{"bad-second-command-value", func() lorawan.PHYPayload {
+			// two commands that encode, then one that is refused: what the encoder had assembled
+			// when it gave up must not surface in a later encoding
+			return lorawan.PHYPayload{MHDR: lorawan.MHDR{MType: lorawan.UnconfirmedDataDown, Major: lorawan.LoRaWANR1}, MACPayload: &lorawan.MACPayload{
+				FHDR: lorawan.FHDR{DevAddr: lorawan.DevAddr{1, 2, 3, 4}, FOpts: []lorawan.Payload{
+					&lorawan.MACCommand{CID: lorawan.LinkCheckAns, Payload: &lorawan.LinkCheckAnsPayload{Margin: 7, GwCnt: 9}},
+					&lorawan.MACCommand{CID: lorawan.DevStatusReq},
+					&lorawan.MACCommand{CID: lorawan.LinkADRReq, Payload: &lorawan.LinkADRReqPayload{DataRate: 16}},
+				}}}}
+		}},
+		{"bad-port0-second-command-value", func() lorawan.PHYPayload {
+			return lorawan.PHYPayload{MHDR: lorawan.MHDR{MType: lorawan.UnconfirmedDataDown, Major: lorawan.LoRaWANR1}, MACPayload: &lorawan.MACPayload{
+				FHDR: lorawan.FHDR{DevAddr: lorawan.DevAddr{1, 2, 3, 4}}, FPort: hPort(0), FRMPayload: []lorawan.Payload{
+					&lorawan.MACCommand{CID: lorawan.LinkCheckAns, Payload: &lorawan.LinkCheckAnsPayload{Margin: 7, GwCnt: 9}},
+					&lorawan.MACCommand{CID: lorawan.LinkADRReq, Payload: &lorawan.LinkADRReqPayload{DataRate: 16}},
+				}}}
+		}},
 		{"bad-command-value", func() lorawan.PHYPayload {
 			return lorawan.PHYPayload{MHDR: lorawan.MHDR{MType: lorawan.UnconfirmedDataUp, Major: lorawan.LoRaWANR1}, MACPayload: &lorawan.MACPayload{
 				FHDR: lorawan.FHDR{DevAddr: lorawan.DevAddr{1, 2, 3, 4}, FOpts: []lorawan.Payload{&lorawan.MACCommand{CID: lorawan.DevStatusAns, Payload: &lorawan.DevStatusAnsPayload{Margin: 40}}}}}}
